@@ -1,4 +1,4 @@
-PROPS = ["CTV.Props.C17", "CTV.Model.TemporalSpec"]
+PROPS = ["CTV.Props.C17", "CTV.Props.C17Tie", "CTV.Model.TemporalSpec"]
 HARNESS = [
     dict(pkg="./submission/", test="TestVerifC17", synctest=True, race=True, timeout=900),
     dict(pkg="./submission/", test="TestVerifC17Dist", synctest=True, race=True, timeout=900),
